@@ -103,7 +103,7 @@ def generate(ctx):
                 out.append('CC_BGEN(%s, "%s", cc_bgen_lt<%d>)' % (tcxx, name(ck="bgen", op="lt", g=[n // 2 + 1], nb=1), n // 2 + 1))
                 out.append('CC_BGEN(%s, "%s", cc_bgen_mod<3>)' % (tcxx, name(ck="bgen", op="mod", g=[3], nb=1)))
                 if acc.get((acxx, tcxx, "swizzle_ct")) and acc.get((acxx, tcxx, "swizzle_dyn")):
-                    for m in c05.swizzle_masks(n, rng, 2, False)[: ctx.q(4, 30)]:
+                    for m in c05.swizzle_masks(n, rng, 2, False)[: ctx.q(12, 40)]:
                         out.append('CC_SWZ(%s, "%s", %s)' % (tcxx, name(ck="swz", op="swizzle", g=m, nb=nb, rows=1), ", ".join(map(str, m))))
             out.append("#endif")
     return "\n".join(out) + "\n", cases
